@@ -157,3 +157,27 @@ Example ex_results :
   results_of _ _ _ _ 1%nat (st_log _ _ _ _ _ (ex_run [1; 0; 2; 0]%nat)) = [((1, 7, 3), Out _ ((1, 7), 3))]%nat
   /\ results_of _ _ _ _ 1%nat (st_log _ _ _ _ _ (ex_run [0; 0; 2; 1]%nat)) = [((1, 7, 3), Out _ ((1, 7), 3))]%nat.
 Proof. vm_compute. split; reflexivity. Qed.
+
+(** ** The t*_format! macros format for the locale being rendered (machines of Runtime/Context.v, accessor flavours of
+    Runtime/ContextAcc.v).  `t_format!(e, value, formatter: ..)` / `tu_format!` return a view closure that reads the locale
+    of the context each time it is rendered; the `_string` / `_display` forms are evaluated in place.  [icu] is the
+    ICU4X oracle (locale index of the `Locale` enum, selected formatter with its options, value). *)
+From LI Require Import Runtime.Context.
+From LI Require Import Runtime.ContextAcc.
+From LI Require Import Runtime.ContextAccProofs.
+
+(** for every history of set_locale / set_locale_untracked / scopes / sub-contexts / flushes, every kind of context
+    expression and every format macro [fa]: the accessor created on handle [h] after [pre] renders, after any continuation
+    [post], the ICU4X text of the value for the locale its context shows at that moment — not for the locale the context
+    held when the macro expression was evaluated *)
+Theorem C18_accessor_current_locale :
+  forall (fmt value text : Type) (icu : N -> fmt -> value -> text) (f : fmt) (v : value)
+         l0 con pre h fa fb post,
+  let a0 := a_run (a_init l0 con) (map erase pre) in
+  (h < a_nh a0)%nat -> fl_frozen fa = false ->
+  let xops := pre ++ XAcc h fa fb :: post in
+  let s := fst (xc_run (c_init l0 con, []) xops) in
+  let a := a_run (a_init l0 con) (map erase xops) in
+  let k := a_nacc a0 in
+  (k < c_nacc s)%nat /\ render_with (fun l => icu l f v) s k = icu (a_loc a (a_hctx a0 h)) f v.
+Proof. exact (fun fmt value text icu f v => @accessor_renders_current_text text (fun l => icu l f v)). Qed.
